@@ -6,4 +6,5 @@ ids="$@"
 for c in $ids; do
   out=$(/verif/bin/symgo check $c $tier 2>&1); rc=$?
   echo "$c rc=$rc $(echo "$out" | grep -E '^(OK|BROKEN|VIOLATION)' | head -3 | cut -c1-200 | tr '\n' ' ')"
+  echo "$out" | grep '^KNOWN-FINDING' | sed "s/^/$c /" >> /verif/.scratch/known_printed.log
 done
